@@ -9,6 +9,8 @@ import types
 import z3
 
 from . import sym
+from .sym import VWord, VPhrase, VStr, zstr
+import unicodedata as _ud
 from .sym import (VInt, VBool, VBytes, VSeq, VHex, VOpaque, Unsupported, Chunk,
                   zi, zb, mk_int, mk_bool, is_sym, to_vbytes, norm_bytes, bytes_concat,
                   bytes_len, chunk_slice, IntS, BoolS, BytesS, LBytesS, seqlit)
@@ -52,6 +54,9 @@ def binop(it, op, a, b, node):
         return bytes_repeat(it, a, b, node)
     if is_int(a) and is_bytes(b) and isinstance(op, ast.Mult):
         return bytes_repeat(it, b, a, node)
+    if (isinstance(a, VStr) or isinstance(b, VStr)) and isinstance(a, (str, VStr)) and isinstance(b, (str, VStr)) \
+            and isinstance(op, ast.Add):
+        return VStr(z3.Concat(zstr(a), zstr(b)))
     if isinstance(a, (str, VHex, VOpaque)) and isinstance(b, (str, VHex, VOpaque)) and isinstance(op, ast.Add):
         if isinstance(a, VHex) and isinstance(b, VHex):
             return VHex(bytes_concat(a.b, b.b))
@@ -251,6 +256,12 @@ def bit_and(it, a, b, za, zb_):
 def bit_or(it, a, b, za, zb_):
     # x | y == x + y when the operands provably share no bits: y < 2**k and 2**k | x
     for (x, zx), (y, zy) in (((a, za), (b, zb_)), ((b, zb_), (a, za))):
+        # y = c * 2**k (a left shift by a constant): disjoint from x when 0 <= x < 2**k
+        ys = z3.simplify(zy)
+        if z3.is_app_of(ys, z3.Z3_OP_MUL) and len(ys.children()) == 2 and z3.is_int_value(ys.arg(0)):
+            c = ys.arg(0).as_long()
+            if c > 0 and is_pow2(c) and it.ctx.valid(z3.And(zx >= 0, zx < c, ys.arg(1) >= 0)):
+                return mk_int(zx + zy)
         for k in (1, 2, 3, 4, 5, 6, 7, 8, 11, 16, 32):
             if it.ctx.valid(z3.And(zy >= 0, zy < 2 ** k, zx % (2 ** k) == 0, zx >= 0)):
                 return mk_int(zx + zy)
@@ -276,6 +287,23 @@ def sym_eq(it, a, b):
         if isinstance(la, int) and isinstance(lb, int) and la != lb:
             return False
         return mk_bool(to_vbytes(a).z == to_vbytes(b).z)
+    if isinstance(a, VStr) or isinstance(b, VStr):
+        if isinstance(a, (str, VStr)) and isinstance(b, (str, VStr)):
+            return mk_bool(zstr(a) == zstr(b))
+        return False
+    if isinstance(a, VWord) or isinstance(b, VWord):
+        if isinstance(a, VWord) and isinstance(b, VWord) and a.words == b.words:
+            return mk_bool(zi(a.i) == zi(b.i))
+        w, o = (a, b) if isinstance(a, VWord) else (b, a)
+        if isinstance(o, str):
+            return mk_bool(zi(w.i) == w.words.index(o)) if o in w.words else False
+        return False
+    if isinstance(a, VPhrase) or isinstance(b, VPhrase):
+        pa = a.items if isinstance(a, VPhrase) else (a.split(" ") if isinstance(a, str) else None)
+        pb = b.items if isinstance(b, VPhrase) else (b.split(" ") if isinstance(b, str) else None)
+        if pa is None or pb is None or len(pa) != len(pb):
+            return False
+        return sym_eq(it, list(pa), list(pb))
     if isinstance(a, VHex) or isinstance(b, VHex):
         if isinstance(a, VHex) and isinstance(b, VHex):
             return sym_eq(it, a.b, b.b)
@@ -461,6 +489,13 @@ def index(it, base, idx, node, checked=True):
                 return base[idx]
             except IndexError:
                 it.raise_(IndexError, node)
+        if isinstance(idx, VInt) and isinstance(base, list) and len(base) >= 256 and _is_wordlist(base):
+            # element of a large table of distinct words: kept abstract (its index), no 2048-way case split
+            if not it.ctx.decide(mk_bool(z3.And(idx.z >= -len(base), idx.z < len(base)))):
+                it.raise_(IndexError, node)
+            if not it.ctx.valid(idx.z >= 0):
+                raise Unsupported("negative symbolic index into a word list")
+            return VWord(idx, base)
         if isinstance(idx, VInt):
             n = len(base)
             v = it.enumerate_int(idx, max(64, 2 * n + 2))
@@ -513,6 +548,20 @@ def index(it, base, idx, node, checked=True):
     if isinstance(base, VHex):
         raise Unsupported("indexing a hex string")
     raise Unsupported(f"index on {type(base).__name__}")
+
+
+_WL = {}
+
+
+def _is_wordlist(lst):
+    """ground facts about a concrete table: all entries are non-empty, whitespace-free, pairwise distinct strings"""
+    k = id(lst)
+    r = _WL.get(k)
+    if r is None or r[0] is not lst:
+        ok = all(isinstance(w, str) and w and not any(c.isspace() for c in w) for w in lst) and len(set(lst)) == len(lst)
+        _WL[k] = (lst, ok)
+        return ok
+    return r[1]
 
 
 def byte_val(it, z):
@@ -851,6 +900,8 @@ def call_method(it, recv, name, args, kwargs, node):
             if name == "pop" and not recv:
                 it.raise_(IndexError, node)
             return getattr(recv, name)(*args, **kwargs)
+        if name == "index" and isinstance(args[0], VWord) and args[0].words == recv and _is_wordlist(recv):
+            return args[0].i          # the words are pairwise distinct: the position of words[i] is i
         if name == "index":
             (x,) = args
             for i, c in enumerate(recv):
@@ -903,11 +954,22 @@ def call_method(it, recv, name, args, kwargs, node):
             (xs,) = args
             if isinstance(xs, list) and all(isinstance(x, (str,)) for x in xs):
                 return recv.join(xs)
+            if recv == " " and isinstance(xs, list) and xs and all(isinstance(x, VWord) or (isinstance(x, str) and x and not any(c.isspace() for c in x)) for x in xs):
+                return VPhrase(xs)
             return VOpaque()
         if name == "encode":
             return recv.encode(*args, **kwargs)
         if name == "format":
             return VOpaque()
+    if isinstance(recv, VStr):
+        if name == "encode" and (not args or args[0] in ("utf-8", "utf8")) and not kwargs:
+            # uninterpreted; surrogates (the only UnicodeEncodeError) are excluded by the "str" input domain
+            return VBytes([Chunk(sym.uf("utf8", BytesS, BytesS)(recv.z))])
+        raise Unsupported(f"str.{name} on a symbolic string")
+    if isinstance(recv, VPhrase):
+        if name == "split" and not args and not kwargs:
+            return list(recv.items)      # items are non-empty and whitespace-free: split() inverts ' '.join
+        raise Unsupported(f"phrase.{name}")
     if isinstance(recv, VSeq):
         if name == "copy":
             return recv
@@ -1073,6 +1135,22 @@ def call_builtin(it, f, args, kwargs, node):
         algo = "sha256" if f is hashlib.sha256 else "sha512"
         data = args[0] if args else b""
         return E.HashObj(algo, data)
+    if f is _ud.normalize and len(args) == 2 and isinstance(args[0], str) and isinstance(args[1], (str, VStr)):
+        # Unicode normalisation is uninterpreted (one symbol per form); nothing about it is assumed
+        return VStr(sym.uf("unorm_" + args[0], BytesS, BytesS)(zstr(args[1])))
+    if f is hashlib.pbkdf2_hmac:
+        names = ["hash_name", "password", "salt", "iterations", "dklen"]
+        a_ = dict(zip(names, args))
+        a_.update(kwargs)
+        hn, pw, salt, iters, dklen = (a_.get(k) for k in names)
+        if not isinstance(hn, str) or not isinstance(iters, int) or not (dklen is None or isinstance(dklen, int)):
+            raise Unsupported("pbkdf2_hmac with symbolic hash name / iteration count / dklen")
+        if not is_sym(pw) and not is_sym(salt):
+            return hashlib.pbkdf2_hmac(hn, pw, salt, iters, dklen)
+        # uninterpreted, one symbol per (hash, iterations, dklen); only the output length is assumed
+        n_ = dklen if dklen is not None else hashlib.new(hn).digest_size
+        fz = sym.uf(f"pbkdf2_{hn}_{iters}_{n_}", BytesS, BytesS, BytesS)
+        return VBytes([Chunk(fz(to_vbytes(pw).z, to_vbytes(salt).z), n_)])
     if f is hashlib.new:
         algo = args[0]
         if algo not in ("ripemd160", "sha256", "sha512"):
